@@ -204,11 +204,11 @@ pub fn run(ctx: &Ctx) -> EvidenceMeta {
   let (max_ops, depth) = if ctx.quick() { (12, 4) } else { (40, 5) };
   for s in &subs {
     let n = match s.proto {
-      Proto::V4L | Proto::V2L => ctx.n(2500, 50_000),
-      p if p.is_local() => ctx.n(1000, 20_000),
-      Proto::V2P | Proto::V4P => ctx.n(600, 10_000),
-      Proto::V1P => ctx.n(200, 3000),
-      _ => ctx.n(60, 1000),
+      Proto::V4L | Proto::V2L => ctx.n(15_000, 150_000),
+      p if p.is_local() => ctx.n(5000, 50_000),
+      Proto::V2P | Proto::V4P => ctx.n(3000, 30_000),
+      Proto::V1P => ctx.n(800, 8000),
+      _ => ctx.n(200, 2000),
     };
     jobs.push(Box::new(move || ctx.prop(s, case(s.proto, max_ops, depth), n)));
   }
